@@ -346,6 +346,13 @@ func runC05(c *Ctx) {
 		}
 	}
 
+	c.Rule("C05-D10", "lookups answer from the guarded maps: every value the routing stores' getters (serverSocketStore.getByID/getByNsp, clientSocketStore.get, nspStore.get, nspSocketStore.get) can return is nil or the "+
+		"result of a lookup in a map field of the store made while its mutex is held — not a remembered earlier result, which remove() does not invalidate", 5)
+	c05LookupsFromGuardedMaps(c, "C05-D10")
+	c.Rule("C05-D11", "per-socket protocol state is allocated per socket: every map-typed field of clientSocket / serverSocket that the constructor sets is set to a map made in that call, and no mutex is held by pointer "+
+		"(a table taken from the manager or the connection is shared by all namespaces of that connection)", 2)
+	c05PerSocketState(c, "C05-D11")
+
 	c.Rule("C05-D9", "one namespace's disconnect does not take the shared connection from the others: Manager.destroy closes the connection only when no socket is active, and a client socket is active from the moment it subscribes to the manager "+
 		"(registerSubEvents sets active=true under activeMu; only the deregistration sets it false) — a socket whose CONNECT is still pending must already count, or Disconnect() on a sibling namespace closes the connection under it; "+
 		"and the frames of one namespace's packet enter the connection's queue in one call (shared with C02-D1), so another namespace's packet cannot land between a binary event and its attachments", 6)
